@@ -395,7 +395,46 @@ def build_users(defs):
     m = one(r"Symbol::Char\(ch\)\s*=>\s*Ok\(ch\)\s*,\s*Symbol::SimpleEscape\(ch\)\s+if\s+ch\s*>=\s*%s\s*&&\s*ch\s*<\s*%s\s*=>\s*\{\s*Ok\(ch\.into\(\)\)\s*\}\s*_\s*=>\s*Err\(" % (NUM, NUM), ic, "Symbol::into_char")
     defs.append(("sym_char_min", "N", "%d%%N" % num(m.group(1))))
     defs.append(("sym_char_lim", "N", "%d%%N" % num(m.group(2))))
+    io = fn_body(sc, "into_octet", after="impl Symbol")
+    m = one(r"Symbol::Char\(ch\)\s*=>\s*\{\s*if\s+ch\.is_ascii\(\)\s*&&\s*ch\s*>=\s*'\\u\{([0-9A-Fa-f]+)\}'\s*&&\s*ch\s*<=\s*'\\u\{([0-9A-Fa-f]+)\}'\s*\{\s*Ok\(ch\s+as\s+u8\)\s*\}\s*else\s*\{\s*Err\(", io, "Symbol::into_octet char range")
+    defs.append(("sym_octet_min", "N", "%d%%N" % int(m.group(1), 16)))
+    defs.append(("sym_octet_max", "N", "%d%%N" % int(m.group(2), 16)))
+    one(r"Symbol::SimpleEscape\(ch\)\s*\|\s*Symbol::DecimalEscape\(ch\)\s*=>\s*Ok\(ch\)", io, "Symbol::into_octet escapes")
+    cs = strip_comments(read("src/base/charstr.rs"))
+    m = one(r"pub\s+const\s+MAX_LEN\s*:\s*usize\s*=\s*(\d+)\s*;", cs, "CharStr::MAX_LEN")
+    defs.append(("charstr_max", "N", "%d%%N" % int(m.group(1))))
+    one(r"if\s+self\.0\.as_ref\(\)\.len\(\)\s*\+\s*slice\.len\(\)\s*>\s*CharStr::MAX_LEN\s*\{\s*return\s+Err\(ShortBuf\);\s*\}", cs, "CharStrBuilder::append_slice limit")
     it = impl_body(sc, r"impl<Iter,\s*Item,\s*Octets>\s*Scanner\s+for\s+IterScanner<Iter,\s*Octets>")
+    # the other token-reading methods: symbol loop, then symbols.ok()? (or not: pre-fix)
+    others = []
+    for fn, body_rx in (
+        ("scan_symbols", r"op\(sym\)\?;"),
+        ("scan_entry_symbols", r"op\(sym\.into\(\)\)\?;"),
+        ("scan_octets", r"match\s+sym\.into_octet\(\)\s*\{\s*Ok\(ch\)\s*=>\s*res\.append_slice\(&\[ch\]\)\.map_err\(Into::into\)\?,\s*Err\(_\)\s*=>\s*return\s+Err\(StrError::custom\(\"bad symbol\"\)\),\s*\}"),
+        ("scan_charstr", r"match\s+sym\.into_octet\(\)\s*\{\s*Ok\(ch\)\s*=>\s*res\.append_slice\(&\[ch\]\)\?,\s*Err\(_\)\s*=>\s*return\s+Err\(StrError::custom\(\"bad symbol\"\)\),\s*\}"),
+        ("scan_string", r"match\s+sym\.into_char\(\)\s*\{\s*Ok\(ch\)\s*=>\s*res\s*\.append_slice\(ch\.encode_utf8\(&mut\s+buf\)\.as_bytes\(\)\)\s*\.map_err\(Into::into\)\?,\s*Err\(_\)\s*=>\s*return\s+Err\(StrError::custom\(\"bad symbol\"\)\),\s*\}"),
+    ):
+        b = fn_body(it, fn)
+        new = re.search(r"let\s+mut\s+symbols\s*=\s*Symbols::new\(token\.as_ref\(\)\.chars\(\)\);\s*for\s+sym\s+in\s+&mut\s+symbols\s*\{\s*" + body_rx + r"\s*\}\s*symbols\.ok\(\)\?;", b)
+        old = re.search(r"for\s+sym\s+in\s+Symbols::new\(token\.as_ref\(\)\.chars\(\)\)\s*\{\s*" + body_rx + r"\s*\}", b)
+        if bool(new) == bool(old):
+            raise GenError("IterScanner::%s: unrecognised symbol loop" % fn)
+        others.append(bool(new))
+    b = fn_body(it, "scan_name")
+    new = re.search(r"let\s+mut\s+symbols\s*=\s*Symbols::new\(token\.as_ref\(\)\.chars\(\)\);\s*let\s+name\s*=\s*Name::from_symbols\(&mut\s+symbols\)\s*\.map_err\(\|_\|\s*StrError::custom\(\"invalid domain name\"\)\)\?;\s*symbols\.ok\(\)\?;\s*Ok\(name\)\s*$", b)
+    old = re.search(r"Name::from_symbols\(Symbols::new\(token\.as_ref\(\)\.chars\(\)\)\)\s*\.map_err\(", b)
+    if bool(new) == bool(old):
+        raise GenError("IterScanner::scan_name: unrecognised shape")
+    others.append(bool(new))
+    if len(set(others)) != 1:
+        raise GenError("IterScanner: the token-reading methods differ in escape checking: %r" % others)
+    one(r"op\(EntrySymbol::EndOfToken\)\?;", fn_body(it, "scan_entry_symbols"), "scan_entry_symbols EndOfToken")
+    one(r"^\s*let\s+res\s*=\s*self\.scan_string\(\)\?;\s*if\s+res\.is_ascii\(\)\s*\{\s*op\(&res\)\s*\}\s*else\s*\{\s*Err\(StrError::custom\(\"non-ASCII characters\"\)\)\s*\}\s*$", fn_body(it, "scan_ascii_str"), "scan_ascii_str")
+    one(r"while\s+self\.iter\.peek\(\)\.is_some\(\)\s*\{\s*self\.scan_charstr\(\)\?\.compose\(&mut\s+res\)\.map_err\(Into::into\)\?;\s*\}", fn_body(it, "scan_charstr_entry"), "scan_charstr_entry")
+    m = one(r"Some\(token\)\s+if\s+token\.as_ref\(\)\s*==\s*\"(\\\\.)\"\s*=>\s*Ok\(true\),\s*_\s*=>\s*Ok\(false\)", fn_body(it, "scan_opt_unknown_marker"), "scan_opt_unknown_marker")
+    mk = m.group(1).encode().decode("unicode_escape")
+    defs.append(("unknown_marker", "list N", nlist([ord(x) for x in mk])))
+    others_flag = others[0]
     flags = []
     for fn in ("convert_token", "convert_entry"):
         b = fn_body(it, fn)
@@ -407,6 +446,8 @@ def build_users(defs):
         flags.append(bool(new))
     if flags[0] != flags[1]:
         raise GenError("IterScanner: convert_token and convert_entry differ in escape checking")
+    if flags[0] != others_flag:
+        raise GenError("IterScanner: convert_* and the other token-reading methods differ in escape checking")
     defs.append(("iter_scanner_checks_escapes", "bool", "true" if flags[0] else "false"))
     one(r"for\s+token\s+in\s+&mut\s+self\.iter\s*\{", fn_body(it, "convert_entry"), "IterScanner::convert_entry token loop")
 
@@ -418,6 +459,16 @@ def build_users(defs):
         one(r"let\s+mut\s+res\s*=\s*String::with_capacity\([^;]*\);\s*%s\(bytes,\s*&mut\s+res\)\.unwrap\(\);\s*res\s*$" % disp, fn_body(c, es), "%s %s" % (f, es))
         one(r"fn\s+fmt\(&self,\s*f:\s*&mut\s+fmt::Formatter<'_>\)\s*->\s*fmt::Result\s*\{\s*%s\(self\.0,\s*f\)\s*\}\s*\}\s*Display\(octets\.as_ref\(\)\)\s*$" % disp, fn_body(c, ed), "%s %s" % (f, ed))
     one(r"^\s*decode\(s\)\s*$", fn_body(strip_comments(read("src/utils/base16.rs")), "decode_vec"), "base16 decode_vec")
+    # the serde submodules: human readable = the text codec, otherwise raw octets
+    for f, enc, dec in (("src/utils/base64.rs", r"encode_display", r"super::decode"),
+                        ("src/utils/base32.rs", r"super::encode_display_hex", r"super::decode_hex"),
+                        ("src/utils/base16.rs", r"super::encode_display", r"super::decode")):
+        c = strip_comments(read(f)).split("mod test")[0]
+        sm = impl_body(c, r"pub\s+mod\s+serde")
+        one(r"if\s+serializer\.is_human_readable\(\)\s*\{\s*serializer\.collect_str\(&%s\(octets\)\)\s*\}\s*else\s*\{\s*octets\.serialize_octets\(serializer\)\s*\}\s*$" % enc, fn_body(sm, "serialize"), "%s serde::serialize" % f)
+        one(r"%s\(v\)\.map_err\(E::custom\)\s*$" % dec, fn_body(sm, "visit_str"), "%s serde visit_str" % f)
+        one(r"if\s+deserializer\.is_human_readable\(\)\s*\{\s*deserializer\.deserialize_str\(Visitor\(Octets::visitor\(\)\)\)\s*\}\s*else\s*\{\s*Octets::deserialize_with_visitor\(", fn_body(sm, "deserialize"), "%s serde::deserialize" % f)
+    defs.append(("serde_modules_use_codecs", "bool", "true"))
     defs.append(("encode_wrappers_are_display", "bool", "true"))
     # bounded builders: how a failing append_slice is handled
     c64 = strip_comments(read("src/utils/base64.rs")).split("mod test")[0]
